@@ -1157,7 +1157,7 @@ impl Defs {
 
         self.enums.keys()
             .map(|candidate| (candidate, strsim::osa_distance(input.as_str(), candidate.as_str())))
-            .min_by_key(|&(_, distance)| distance)
+            .min_by_key(|&(candidate, distance)| (distance, candidate))  // (name breaks ties; hash order must not)
             .filter(|&(_, distance)| distance <= max_distance)
             .map(|(candidate, _)| candidate.clone())
     }
